@@ -5,7 +5,7 @@ import core
 import gen
 
 THEOREMS = []  # set at the bottom
-CORR_OPS = ["iv:project", "iv:e_step", "iv:m_step", "iv:fit"]
+CORR_OPS = ["iv:project", "iv:project_linear", "iv:e_step", "iv:m_step", "iv:fit"]
 RULE = ("UBM x T x covariances x training statistics (fractional counts, components with zero count in some or all statistics, "
         "second-order statistics small enough to drive sigma to its floor) x i-vector dimension 1-3 x update_sigma on/off x 1-3 iterations x "
         "partitionings; distinct = hash of inputs; non-trivial = >= 2 statistics and >= 2 supervector entries")
@@ -147,6 +147,25 @@ def correspondence(ctx):
         mp = np.array([core.dec(p) for p in o["proj"]]).reshape(len(sts), R)
         if isinstance(pr, core.ImplError) or not core.close(mp, pr, 1e-7, 1e-9):
             bad.append({"op": "iv:project", "input": inp, "model": mp, "impl": repr(pr) if isinstance(pr, core.ImplError) else pr})
+        # C10_centred_stats_zero / C10_project_linear_in_centred_f on the code: statistics sitting at the UBM means give the zero vector, and
+        # for fixed counts the i-vector is linear in the centred first-order statistics
+        def lin():
+            um = np.asarray(iv.ubm.means, dtype=float)
+            s1, s2 = sc["sts"][0], sc["sts"][-1]
+            n = np.asarray(s1["n"], dtype=float)
+            g1 = np.asarray(s1["f"], dtype=float) - n[:, None] * um
+            g2 = (np.asarray(s2["f"], dtype=float) - np.asarray(s2["n"], dtype=float)[:, None] * um)[::-1] + 0.25
+            a, b = 0.7, -1.3
+            pj = lambda g: np.asarray(iv.project(mk_stats(sc, dict(s1, f=n[:, None] * um + g))), dtype=float)
+            return pj(np.zeros_like(g1)), pj(g1), pj(g2), pj(a * g1 + b * g2), a, b
+        lr = core.impl(lin)
+        if isinstance(lr, core.ImplError):
+            bad.append({"op": "iv:project_linear", "input": inp, "impl": repr(lr)})
+        else:
+            p0, p1, p2, p3, a, b = lr
+            tol = 1e-7 * (1 + float(np.max(np.abs(p1))) + float(np.max(np.abs(p2))))
+            if not (np.all(np.abs(p0) <= tol) and np.all(np.abs(p3 - (a * p1 + b * p2)) <= tol)):
+                bad.append({"op": "iv:project_linear", "input": inp, "impl": {"centred": p0, "p1": p1, "p2": p2, "combined": p3, "a": a, "b": b}})
         es = core.impl(lambda: ivmod.e_step(iv, sts))
         if isinstance(es, core.ImplError):
             bad.append({"op": "iv:e_step", "input": inp, "impl": repr(es)})
@@ -317,5 +336,5 @@ def replay(d):
     return oracle(fix(d["input"]))
 
 
-THEOREMS = ["C10_project_solves_system", "C10_project_is_posterior_mode", "C10_zero_stats_zero", "C10_sigma_floor", "C10_estep_additive", "C10_partition_independent",
+THEOREMS = ["C10_project_solves_system", "C10_project_is_posterior_mode", "C10_zero_stats_zero", "C10_centred_stats_zero", "C10_project_linear_in_centred_f", "C10_sigma_floor", "C10_estep_additive", "C10_partition_independent",
             "C10_em_monotone_fixed_sigma", "C10_em_monotone_update_sigma"]
